@@ -304,5 +304,41 @@ def run(ctx):
         pass
     if ops._ext_enabled != before:
         ctx.spec_failures.append(("C13:disable_extensions-not-restored", {}))
+    # the switch along nested traces (exits through exceptions included), against the model (`ext13`)
+    elines, eexpect = [], []
+    for _ in range(30 if not ctx.thorough else 300):
+        depth_plan = [rng.randrange(1, 4) for _ in range(rng.randrange(1, 4))]     # sequential groups of nested contexts
+        evs, obs = [], []
+
+        def nest(d, boom):
+            with disable_extensions():
+                evs.append("e")
+                obs.append(f"{str(ops._ext_enabled).lower()}:{len([x for x in evs if x == 'e']) - len([x for x in evs if x == 'x'])}")
+                if d > 1:
+                    try:
+                        nest(d - 1, boom)
+                    finally:
+                        evs.append("x")
+                        obs.append(f"{str(ops._ext_enabled).lower()}:{len([x for x in evs if x == 'e']) - len([x for x in evs if x == 'x'])}")
+                elif boom:
+                    raise Boom()
+        for d in depth_plan:
+            try:
+                nest(d, rng.random() < 0.5)
+            except Boom:
+                pass
+            evs.append("x")
+            obs.append(f"{str(ops._ext_enabled).lower()}:{len([x for x in evs if x == 'e']) - len([x for x in evs if x == 'x'])}")
+        elines.append("ext13 " + " ".join(evs))
+        eexpect.append(";".join(obs))
+        ctx.evaluations += 1
+        ctx.count(f"ext-switch:max-depth={max(depth_plan)}")
+        if ops._ext_enabled != before:
+            ctx.spec_failures.append(("C13:disable_extensions-not-restored", {"events": evs}))
+    egot = run_driver(elines)
+    ctx.corr_cases += len(elines)
+    for l, e, g in zip(elines, eexpect, egot):
+        if e != g and len(ctx.corr_disagreements) < 20:
+            ctx.corr_disagreements.append({"case": l, "impl": e, "model": g, "tag": "disable_extensions switch"})
     return finish(ctx, ["torch's global hook registries and function-mode stack are read through torch's own module attributes",
                         "write-set tables are extracted from source text (sound up to callee effects and dynamic setattr); the snapshots are the behavioural tie"])
